@@ -21,7 +21,7 @@ import (
 func init() {
 	trackedFuncs["C17"] = []tracked{
 		{"ziputil", "", "UnzipDir"}, {"ziputil", "", "ZipDir"}, {"ziputil", "", "ZipFile"},
-		{"dock", "", "writeTarToDir"}, {"dock", "", "createFile"},
+		{"dock", "", "writeTarToDir"}, {"dock", "", "createFile"}, {"dock", "", "writeFirstFileAs"},
 		{"tarutil", "", "TarZipFile"}, {"tarutil", "", "copyZipFile"},
 	}
 	register("C17Facts", genC17Facts)
@@ -290,7 +290,36 @@ func genC17Facts(repo string, fs facts) (string, error) {
 			strings.Contains(src, "fout.Chmod(mod)")
 	}
 
+	// writeFirstFileAs(r, file): every file-system call takes the parameter `file` itself
+	firstDestOnly := false
+	var firstWrites []string
+	if fd := dp.fn("", "writeFirstFileAs"); fd != nil && len(fd.Type.Params.List) == 2 && len(fd.Type.Params.List[1].Names) == 1 {
+		param := fd.Type.Params.List[1].Names[0].Name
+		firstDestOnly = true
+		n := 0
+		ast.Inspect(fd, func(x ast.Node) bool {
+			c, ok := x.(*ast.CallExpr)
+			if !ok {
+				return true
+			}
+			name, arg, ok := c17Sink(c)
+			if !ok || arg < 0 || arg >= len(c.Args) {
+				return true
+			}
+			n++
+			firstWrites = append(firstWrites, name+"("+dp.src(c.Args[arg])+")")
+			if id, isID := c.Args[arg].(*ast.Ident); !isID || id.Name != param {
+				firstDestOnly = false
+			}
+			return true
+		})
+		if n == 0 {
+			firstDestOnly = false
+		}
+	}
+
 	fs["C17"] = map[string]interface{}{
+		"writeFirstFileAs.writes": firstWrites,
 		"UnzipDir": unzip, "writeTarToDir": untar, "TarZipFile": tarzip,
 		"ZipDir.SetMode": zipDirModes, "ZipFile.SetMode": zipFileModes, "UnzipDir.applies_mode": unzipMode,
 	}
@@ -308,6 +337,7 @@ func genC17Facts(repo string, fs facts) (string, error) {
 	w("ZipDir sets the header mode of directories and files from the walked item", "zipDirKeepsMode", zipDirKeeps)
 	w("ZipFile sets the header mode from the file", "zipFileKeepsMode", zipFileKeeps)
 	w("UnzipDir passes the entry mode to MkdirAll and Chmod", "unzipAppliesMode", unzipMode)
+	w("every file-system call of writeFirstFileAs takes its `file` parameter itself", "firstFileWritesDestOnly", firstDestOnly)
 	b.WriteString("end PubModel.Gen.C17Facts\n")
 	return b.String(), nil
 }
